@@ -233,3 +233,68 @@ def c_map_compose_error(v: int, k: int, where: int) -> bool:
     if out.exception() is not boom:
         return False
     return later == ([] if where == 0 else [v + k])
+
+
+class Duck(object):
+    """A future by the library's own definition (check.is_future: it has add_done_callback), but not a
+    concurrent.futures.Future subclass."""
+
+    def __init__(self, inner):
+        self._f = inner
+
+    def add_done_callback(self, fn):
+        self._f.add_done_callback(lambda _f: fn(self))
+
+    def result(self, timeout=None):
+        return self._f.result(timeout)
+
+    def exception(self, timeout=None):
+        return self._f.exception(timeout)
+
+    def done(self):
+        return self._f.done()
+
+    def cancelled(self):
+        return self._f.cancelled()
+
+    def running(self):
+        return self._f.running()
+
+    def cancel(self):
+        return self._f.cancel()
+
+
+def c_flat_map_future_like(v: int, kind: int, k: int, form: int, via_error_fn: bool) -> bool:
+    """
+    pre: 0 <= kind <= 5 and 0 <= form <= 1
+    post: __return__
+    """
+    # what counts as "a future" for flat_map: anything future-like is flattened (kinds 0-2: value, error,
+    # resolved later); None, '' and 0 are non-futures and give TypeError (kinds 3-5)
+    inner_exc = E2("inner")
+    late = Future()
+
+    def fn(x):
+        if kind == 0:
+            return Duck(f_return(v + k))
+        if kind == 1:
+            return Duck(f_return_error(inner_exc))
+        if kind == 2:
+            return Duck(late)
+        return (None, "", 0)[kind - 3]
+
+    if via_error_fn:
+        out = _apply(form, _mk_input(True, v, E1("input")), None, lambda e: fn(v), flat=True)
+    else:
+        out = _apply(form, _mk_input(False, v, None), fn, None, flat=True)
+    if kind == 2:
+        if out.done():
+            return False
+        late.set_result(v + k)
+    if not out.done():
+        return False
+    if kind in (0, 2):
+        return out.exception() is None and out.result() == v + k
+    if kind == 1:
+        return out.exception() is inner_exc
+    return isinstance(out.exception(), TypeError)
